@@ -287,7 +287,7 @@ class Loop(object):
     def _env(self, env, phase):
         e = dict(env)
         it = self.it
-        if isinstance(it, SymRange):
+        if isinstance(it, (SymRange, SymZip)):
             lo, hi = SInt(it.lo_e), SInt(it.hi_e)
             if phase == "entry":
                 e["__i"] = lo
@@ -397,6 +397,13 @@ class Loop(object):
             if self.state.split_first:
                 self._first = ctx().branch(i.e == it.lo_e)
             return i
+        if isinstance(it, SymZip):
+            i = fresh_int("i")
+            ctx().assume(z3.And(i.e >= 0, i.e < it.n_e))
+            self._target = i
+            if self.state.split_first:
+                self._first = ctx().branch(i.e == 0)
+            return tuple(s[i] for s in it.seqs)
         raise OutOfSubset("cut loop over %r" % (type(it),))
 
     def feasible_iteration(self):
@@ -449,7 +456,7 @@ class Loop(object):
                 c.check("%s.inv_preserved.%s" % (self.lid, label), _cond(cond), kind="invariant")
         if st.peel_last:
             it = self.it
-            if isinstance(it, SymRange):
+            if isinstance(it, (SymRange, SymZip)):
                 if c.branch(self._target.e + 1 < it.hi_e):
                     raise PathEnd()     # not the last iteration: covered by the arbitrary loop head
                 c.cover("%s.exit_after_last_iteration" % self.lid)
@@ -462,8 +469,10 @@ class Loop(object):
     def exhausted(self, env):
         c = ctx()
         c.cover("%s.exit" % self.lid)
-        if self.state.peel_last and isinstance(self.it, SymRange):
+        if self.state.peel_last and isinstance(self.it, (SymRange, SymZip)):
             c.assume(self.it.hi_e <= self.it.lo_e)
+            if c.solver.check() == z3.unsat:
+                raise PathEnd()       # zero iterations are impossible here: this path does not exist
 
 
 def _cond(c):
@@ -493,6 +502,32 @@ class SymRange(object):
         self.lo, self.hi, self.step = lo, hi, step
         self.lo_e = lo.e if isinstance(lo, SInt) else z3.IntVal(lo)
         self.hi_e = hi.e if isinstance(hi, SInt) else z3.IntVal(hi)
+
+
+class SymZip(object):
+    """zip(...) over sequences of the same symbolic length (tensors along their first axis)"""
+
+    def __init__(self, seqs):
+        from .seq import pv_len
+        self.seqs = seqs
+        n = pv_len(seqs[0])
+        self.n = n
+        self.n_e = n.e if isinstance(n, SInt) else z3.IntVal(n)
+        self.lo_e, self.hi_e = z3.IntVal(0), self.n_e
+
+
+def pv_zip(*seqs):
+    from .stubtorch import Tensor
+    from .seq import pv_len
+    if seqs and all(isinstance(s, Tensor) for s in seqs) and any(not isinstance(pv_len(s), int) for s in seqs):
+        c = ctx()
+        n0 = pv_len(seqs[0])
+        for s in seqs[1:]:
+            # zip stops at the shortest: the contract of the callers here is equal lengths (checked, not assumed)
+            if not c.branch((pv_len(s) == n0).e if hasattr(pv_len(s) == n0, "e") else z3.BoolVal(pv_len(s) == n0)):
+                raise OutOfSubset("zip over sequences of different symbolic lengths")
+        return SymZip(seqs)
+    return zip(*seqs)
 
 
 def pv_range(*a):
@@ -793,6 +828,7 @@ def rewrite(fn, cut=None, prefix=None, extra_globals=None, lift_lists=None):
     from .seq import pv_list, pv_len
     g["__pv_list"] = pv_list
     g["len"] = pv_len
+    g["zip"] = pv_zip
     if extra_globals:
         g.update(extra_globals)
     fname = "<pydv-loopcut %s>" % prefix
